@@ -28,6 +28,9 @@ let rec p_jvalue (t : string list) : jvalue * string list =
                 | key :: r -> let (v, r) = p_jvalue r in let (l, r) = go (k - 1) r in ((bytes_of_hex key, v) :: l, r)
                 | [] -> failwith "key expected") in
            let (l, r) = go (int_of_string body) r in (JMap l, r)
+       | 'u' -> (* a Go value of a type outside the model (e.g. the uint8 an expression engine returns for
+                    an index into a string): equal to no model value *)
+           (JMap [ ([ Util.n_of_int 0 ], JS (VStr (bytes_of_hex body))) ], r)
        | _ -> failwith ("bad value token " ^ x))
 let jvalue_of (t : string list) : jvalue =
   match p_jvalue t with (v, []) -> v | _ -> failwith "trailing value tokens"
